@@ -24,6 +24,45 @@ var guardedLiteclient = map[string]string{
 	"liteclient.Client.nextConn":         "liteclient.Client.connMutex",
 }
 
+// liteGuarded: the guarded-by table with the reply-channel map of Client and its mutex named by role
+// (the map-of-channels field; the mutex held where the registering function inserts into it), so that a
+// rename of these unexported fields leaves the table valid.
+func (c *Ctx) liteGuarded(la *lockAnalysis) map[string]string {
+	out := map[string]string{}
+	for k, v := range guardedLiteclient {
+		out[k] = v
+	}
+	q, mu := c.liteQueryMap(la)
+	if q != "" && q != "liteclient.Client.queries" {
+		delete(out, "liteclient.Client.queries")
+		out[q] = mu
+	}
+	return out
+}
+
+// liteQueryMap: the reply-channel map field of Client and the mutex that is held at its insertion site.
+func (c *Ctx) liteQueryMap(la *lockAnalysis) (field, mutex string) {
+	field = c.fieldByType("liteclient", "Client", isMapOfChan)
+	if field == "" {
+		return "liteclient.Client.queries", "liteclient.Client.queriesMutex"
+	}
+	mutex = "liteclient.Client.queriesMutex"
+	for _, f := range c.moduleFuncs("liteclient") {
+		allInstrs(f, func(_ *ssa.BasicBlock, in ssa.Instruction) {
+			if mu, ok := in.(*ssa.MapUpdate); ok {
+				if ld, ok := mu.Map.(*ssa.UnOp); ok {
+					if of, ok := ownerField(ld.X); ok && of == field {
+						if h := heldAt(la, mu); h != "" {
+							mutex = h
+						}
+					}
+				}
+			}
+		})
+	}
+	return
+}
+
 func propC12(c *Ctx) propInfo {
 	c.errflow(excC12E2, "liteclient")
 	c.queryFraming()
@@ -33,7 +72,7 @@ func propC12(c *Ctx) propInfo {
 	c.loopVarEscape("E17.loopvar-escape", "liteclient")
 	c.nilContradictions("E1.P8-nil-contradiction", "liteclient")
 	la := c.newLockAnalysis("liteclient")
-	la.guardedBy("E9.K1-guarded-by", guardedLiteclient, map[string]string{
+	la.guardedBy("E9.K1-guarded-by", c.liteGuarded(la), map[string]string{
 		"(*liteclient.Connection).setupEncryptedConnection read liteclient.Connection.econn":   "read by the single goroutine that performs the (re)connect; status is Connecting, so Send and other users do not touch econn until this goroutine publishes Connected",
 		"(*liteclient.Connection).setupEncryptedConnection read liteclient.Connection.econn#2": "same goroutine, error path of the handshake",
 		"(*liteclient.Connection).sendAuthRequest read liteclient.Connection.econn":            "called only from setupEncryptedConnection of a connection whose status is still Connecting",
@@ -70,9 +109,11 @@ func (c *Ctx) requestProtocol() {
 	if req == nil || disp == nil {
 		return
 	}
+	la := c.newLockAnalysis("liteclient")
+	qField, qMutex := c.liteQueryMap(la)
 	// roles: the callee (or the function itself) that inserts into / deletes from Client.queries
-	inserts := func(f *ssa.Function) bool { return touchesMap(f, "liteclient.Client.queries", true) }
-	deletes := func(f *ssa.Function) bool { return touchesMap(f, "liteclient.Client.queries", false) }
+	inserts := func(f *ssa.Function) bool { return touchesMap(f, qField, true) }
+	deletes := func(f *ssa.Function) bool { return touchesMap(f, qField, false) }
 	var regCall, sendCall ssa.Instruction
 	var unregDeferred bool
 	var regResult ssa.Value
@@ -150,33 +191,45 @@ func (c *Ctx) requestProtocol() {
 		}
 	})
 	c.check(tmo && cancelDeferred, R, "deadline derives from Client.timeout, cancel deferred", req.Pos(), "context.WithTimeout(ctx, c.timeout) with deferred cancel", "the request deadline no longer derives from the client's timeout (or its cancel is not deferred)")
-	// dispatcher: lookup and delete in the same critical section, single send after unlocking
-	la := c.newLockAnalysis("liteclient")
+	// dispatcher: lookup and delete in the same critical section, single send after unlocking. The lookup and the
+	// delete may sit in the dispatcher or in an unexported helper it calls (takeCallback(id)); the send is in the
+	// dispatcher, on the channel that came out of the map.
 	var lookup, del ssa.Instruction
 	var sends []*ssa.Send
-	allInstrs(disp, func(_ *ssa.BasicBlock, i ssa.Instruction) {
-		switch x := i.(type) {
-		case *ssa.Lookup:
-			if ld, ok := x.X.(*ssa.UnOp); ok {
-				if of, ok := ownerField(ld.X); ok && of == "liteclient.Client.queries" {
-					lookup = x
-				}
-			}
-		case *ssa.Call:
-			if b, ok := x.Call.Value.(*ssa.Builtin); ok && b.Name() == "delete" {
-				if ld, ok := x.Call.Args[0].(*ssa.UnOp); ok {
-					if of, ok := ownerField(ld.X); ok && of == "liteclient.Client.queries" {
-						del = x
+	for _, g := range c.helperClosure(disp, 1, func(h *ssa.Function) bool { return plainHelper(h) == nil }) {
+		allInstrs(g, func(_ *ssa.BasicBlock, i ssa.Instruction) {
+			switch x := i.(type) {
+			case *ssa.Lookup:
+				if ld, ok := x.X.(*ssa.UnOp); ok {
+					if of, ok := ownerField(ld.X); ok && of == qField {
+						lookup = x
 					}
 				}
+			case *ssa.Call:
+				if b, ok := x.Call.Value.(*ssa.Builtin); ok && b.Name() == "delete" {
+					if ld, ok := x.Call.Args[0].(*ssa.UnOp); ok {
+						if of, ok := ownerField(ld.X); ok && of == qField {
+							del = x
+						}
+					}
+				}
+			case *ssa.Send:
+				sends = append(sends, x)
 			}
-		case *ssa.Send:
-			sends = append(sends, x)
-		}
-	})
-	sameCS := lookup != nil && del != nil && lookup.Block() == del.Block() && la.at(lookup)["liteclient.Client.queriesMutex"] == 'W' && la.at(del)["liteclient.Client.queriesMutex"] == 'W' && noUnlockBetween(lookup, del)
+		})
+	}
+	sameCS := lookup != nil && del != nil && lookup.Block() == del.Block() && la.at(lookup)[qMutex] == 'W' && la.at(del)[qMutex] == 'W' && noUnlockBetween(lookup, del)
 	c.check(sameCS, R, "dispatcher removes the entry in the lookup's critical section", posOf(del, disp), "lookup and delete of Client.queries[id] happen under one hold of queriesMutex", "the dispatcher no longer deletes the query entry in the same critical section as the lookup: a duplicated answer finds the entry again and its send blocks the reader goroutine forever")
-	okSend := len(sends) == 1 && del != nil && del.Block().Dominates(sends[0].Block()) && len(la.at(sends[0])) == 0
+	okSend := len(sends) == 1 && del != nil && len(la.at(sends[0])) == 0
+	if okSend {
+		if del.Parent() == sends[0].Parent() {
+			okSend = del.Block().Dominates(sends[0].Block())
+		} else {
+			// the entry is removed inside the helper whose result carries the channel: the send, which uses that
+			// result, runs after the helper returned (and released the mutex it took)
+			okSend = sends[0].Parent() == disp
+		}
+	}
 	if okSend && lookup != nil {
 		okSend = derivesFrom(sends[0].Chan, func(v ssa.Value) bool { return v == lookup.(ssa.Value) }, false)
 	}
@@ -529,7 +582,11 @@ func (c *Ctx) freshFrameBuffer(R string) {
 	c.floor(R, 1)
 }
 
-var excC12E2 = map[string]string{}
+var excC12E2 = map[string]string{
+	// (the same fallback exists on every spelling of the function: with the two tests nested the return sits at the
+	// join of both paths, where no branch fact survives; written as guard clauses it sits on the failure edge)
+	"liteclient.LiteapiRequestDecoder R-swallow return nil under ()#2 != nil": "by contract the function classifies a message, it does not validate it: a body the typed decoder of its tag rejects is reported as UnknownRequest with a nil error, exactly like an unknown tag",
+}
 
 // queryFraming: adnl.message.query / adnl.message.answer carry the 256-bit query id right after
 // the 4-byte constructor id and the TL byte string after that. The writer (Client.Request) makes a
@@ -543,35 +600,43 @@ func (c *Ctx) queryFraming() {
 	if w == nil || r == nil {
 		return
 	}
+	// both sides are read with their unexported helpers inlined (E19): the payload may be assembled in Request
+	// itself or in a helper it calls, in the same order
 	head := int64(-1)
-	allInstrs(w, func(_ *ssa.BasicBlock, in ssa.Instruction) {
-		if mk, ok := in.(*ssa.MakeSlice); ok {
-			if k, ok := constInt(mk.Len); ok && head < 0 {
+	idLen := int64(-1)
+	for _, vi := range c.inlineView(w, 2, nil) {
+		switch x := vi.in.(type) {
+		case *ssa.MakeSlice:
+			if k, ok := constInt(x.Len); ok && head < 0 {
 				head = k
 			}
-		}
-	})
-	// first append after the head: the id array
-	idLen := int64(-1)
-	allInstrs(w, func(_ *ssa.BasicBlock, in ssa.Instruction) {
-		cl, ok := in.(*ssa.Call)
-		if !ok || idLen >= 0 {
-			return
-		}
-		if bi, ok := cl.Call.Value.(*ssa.Builtin); !ok || bi.Name() != "append" {
-			return
-		}
-		if sl, ok := cl.Call.Args[1].(*ssa.Slice); ok {
-			if n, ok := arrayLen(sl.X.Type()); ok {
-				idLen = n
+		case *ssa.Slice:
+			// make([]byte, K) with a constant K is an array allocation plus a slice in go/ssa
+			if al, ok := x.X.(*ssa.Alloc); ok && al.Heap && al.Comment == "makeslice" && head < 0 {
+				if n, ok := arrayLen(al.Type()); ok {
+					head = n
+				}
+			}
+		case *ssa.Call:
+			// first append after the head: the id array
+			if idLen >= 0 {
+				continue
+			}
+			if bi, ok := x.Call.Value.(*ssa.Builtin); !ok || bi.Name() != "append" {
+				continue
+			}
+			if sl, ok := x.Call.Args[1].(*ssa.Slice); ok {
+				if n, ok := arrayLen(sl.X.Type()); ok {
+					idLen = n
+				}
 			}
 		}
-	})
+	}
 	lo, hi, off := int64(-1), int64(-1), int64(-1)
-	allInstrs(r, func(_ *ssa.BasicBlock, in ssa.Instruction) {
-		cl, ok := in.(*ssa.Call)
+	for _, vi := range c.inlineView(r, 2, nil) {
+		cl, ok := vi.in.(*ssa.Call)
 		if !ok {
-			return
+			continue
 		}
 		if bi, ok := cl.Call.Value.(*ssa.Builtin); ok && bi.Name() == "copy" {
 			if sl, ok := cl.Call.Args[1].(*ssa.Slice); ok && sl.Low != nil && sl.High != nil {
@@ -584,7 +649,7 @@ func (c *Ctx) queryFraming() {
 				off, _ = constInt(sl.Low)
 			}
 		}
-	})
+	}
 	okv := head == 4 && idLen == 32 && lo == head && hi == head+idLen && off == hi
 	c.check(okv, R, "query id at [4:36], byte string from 36 on both sides", w.Pos(), fmt.Sprintf("writer: %d-byte head, %d-byte id; reader: id [%d:%d], data from %d", head, idLen, lo, hi, off),
 		fmt.Sprintf("the request is built as a %d-byte head followed by a %d-byte query id, but the answer's id is read from [%d:%d] and its byte string from offset %d: ids never match (every answer is an unknown query) or the data is misframed", head, idLen, lo, hi, off))
@@ -657,7 +722,7 @@ func (c *Ctx) connectionDispatch() {
 			continue
 		}
 		k := c.constValue("liteclient", d.magic)
-		calls := callsTo(f, modPath+"/liteclient."+d.handler)
+		calls := callsTo(f, c.qn("liteclient", d.handler))
 		okv := len(calls) > 0 && k >= 0
 		for _, cl := range calls {
 			seen, eq := magicFact(f, cl.Block(), k)
